@@ -31,6 +31,7 @@ type Contract struct {
 	HasAssign bool
 	Loops     map[int][]*Clause
 	Inline    bool
+	DynInline bool // inline at call sites where an interface argument has a statically known dynamic type
 	NoInline  bool
 	Trusted   bool
 	Params    []string // optional explicit parameter names (positional)
@@ -47,6 +48,7 @@ type SpecFunc struct {
 	Params []QVar
 	Ret    string
 	Body   Expr // nil = uninterpreted
+	Opaque bool // uninterpreted symbol + definitional axiom (usable in triggers)
 	File   string
 }
 
@@ -60,6 +62,7 @@ type Axiom struct {
 	From  string // lower bound expression source
 	Tags  []string
 	Pkg   string
+	Using []Expr // proof-only hints: terms planted in the proof obligation (not part of the exported statement)
 }
 
 type GhostVar struct {
@@ -85,9 +88,9 @@ func NewSpecDB() *SpecDB {
 		Imports: map[string]map[string]string{}, FilePkg: map[string]string{}, Witness: map[string][]string{}}
 }
 
-var clauseKeywords = map[string]bool{"import": true, "ghost": true, "spec": true, "axiom": true, "lemma": true,
+var clauseKeywords = map[string]bool{"import": true, "ghost": true, "spec": true, "def": true, "axiom": true, "lemma": true,
 	"func": true, "extern": true, "requires": true, "ensures": true, "assigns": true, "loop": true, "inline": true,
-	"noinline": true, "trusted": true, "maypanic": true, "params": true, "results": true, "havoc": true, "det": true}
+	"noinline": true, "dyninline": true, "trusted": true, "maypanic": true, "params": true, "results": true, "havoc": true, "det": true}
 
 type rawLine struct {
 	text string
@@ -197,8 +200,8 @@ func (db *SpecDB) stmt(path, pkgPath string, st rawLine, cur **Contract) error {
 			db.Ghosts[f[1]] = &GhostVar{Name: f[1], Type: strings.Join(f[2:], " "), File: path}
 			db.GhostOrd = append(db.GhostOrd, f[1])
 		}
-	case "spec":
-		// spec name(p T, q U) R [:= body]
+	case "spec", "def":
+		// spec name(p T, q U) R [:= body]   (macro)      def name(...) R := body   (symbol + definitional axiom)
 		i := strings.Index(rest, "(")
 		if i < 0 {
 			return fmt.Errorf("spec syntax")
@@ -244,6 +247,23 @@ func (db *SpecDB) stmt(path, pkgPath string, st rawLine, cur **Contract) error {
 			return fmt.Errorf("duplicate spec function %s", name)
 		}
 		db.Funcs[name] = sf
+		if kw == "def" {
+			if sf.Body == nil {
+				return fmt.Errorf("def needs a body")
+			}
+			sf.Opaque = true
+			var args []Expr
+			for _, p := range sf.Params {
+				args = append(args, &EIdent{Name: p.Name})
+			}
+			call := &ECall{Fn: name, Args: args}
+			op := "=="
+			if strings.TrimSpace(sf.Ret) == "bool" {
+				op = "<==>"
+			}
+			db.Axioms = append(db.Axioms, &Axiom{Name: "def_" + name, File: path, Pkg: pkgPath, Src: "definition of " + name,
+				E: &EQuant{Forall: true, Vars: sf.Params, Trig: [][]Expr{{call}}, Body: &EBin{Op: op, L: call, R: sf.Body}}})
+		}
 	case "axiom", "lemma":
 		// [tags] name: expr     lemma may be "name by induction k from e: expr"
 		tags, lname, s := splitTags(rest)
@@ -274,6 +294,17 @@ func (db *SpecDB) stmt(path, pkgPath string, st rawLine, cur **Contract) error {
 			if len(hf) >= 6 && hf[4] == "from" {
 				ax.From = strings.Join(hf[5:], " ")
 			}
+		}
+		if k := strings.Index(exprSrc, " using "); k >= 0 {
+			for _, u := range strings.Split(exprSrc[k+7:], ";") {
+				ue, err := ParseExpr(u)
+				if err != nil {
+					return err
+				}
+				ax.Using = append(ax.Using, ue)
+			}
+			exprSrc = exprSrc[:k]
+			ax.Src = exprSrc
 		}
 		e, err := ParseExpr(exprSrc)
 		if err != nil {
@@ -346,6 +377,8 @@ func (db *SpecDB) stmt(path, pkgPath string, st rawLine, cur **Contract) error {
 		(*cur).Loops[n] = append((*cur).Loops[n], cl)
 	case "inline":
 		(*cur).Inline = true
+	case "dyninline":
+		(*cur).DynInline = true
 	case "noinline":
 		(*cur).NoInline = true
 	case "trusted":
